@@ -740,6 +740,11 @@ def _fbf_section(r, col, configs, deadline, n_extra=1):
 
 
 def _precision_configs(quick):
+    """float32 configurations of the precision section: sharp (Gabor / triangular) filters leave
+    most bands of a sparse signal empty, which is where misplaced single-precision arithmetic
+    shows; log, magnitude and power outputs; both computers; a gammatone bank with the energy
+    coefficient as a broad-filter control. SI shifts are inside the hypothesis (s < one-sided
+    support; checked by _Runner.config)."""
     f32 = dict(dtype="float32", kaldi_shift=False)
     prec = [
         dict(f32, computer="si", frame_style="centered", frame_shift=40, sampling_rate=8000, bank="gabor20",
